@@ -3,6 +3,7 @@ from an import (Tracer, guard_at, strip, strip_casts, walk, fmt, callee, const_e
 from mir import loc_str
 from muxcommon import *
 import rules_c03, rules_c10, rules_c08
+import rules_c07
 from effects import EffectEngine
 
 EXPLANATION = (
@@ -15,7 +16,7 @@ EXPLANATION = (
     "field of the per-stream state other than id/host/port/queue handles is freshly constructed in the stream "
     "constructor.")
 EXPLANATION_ADDED = 'R3 also decides necessity: with inhibit_rst=false every closing path of an established, not-finished stream queues a Reset.'
-EXPLANATION_ADDED2 = " R1 also requires the dropped-flows consumer to close every notified flow irrespective of the slot's state."
+EXPLANATION_ADDED2 = " R1 also requires the dropped-flows consumer to close every notified flow irrespective of the slot's state; (R6) locally opened streams never get flow id 0, the value that means 'multiplexor dropped' on the dropped-flows channel (= C07.R1)."
 EXPLANATION = EXPLANATION + " Added while testing against seeded changes: " + EXPLANATION_ADDED + EXPLANATION_ADDED2
 ASSUMPTIONS = ["tokio mpsc unbounded send from Drop is non-blocking"]
 NOT_DECIDED = "absence of leaks over arbitrarily long histories (every way a slot leaves the map cleans it; whether every abandoned slot leaves the map depends on peer behaviour)"
@@ -187,3 +188,18 @@ def check(facts, rep, tier, cfg):
                     rep.bad("C06.R5", "%s.%s" % (adt.split("::")[-1], f), where,
                             "per-stream field is initialised from shared / previous state (reads %s, calls %s, params %s): state can leak into a stream that reuses the id" % (sorted(selfreads), sorted(calls), sorted(params)))
     rep.floor("C06.R5", "per-stream state fields", n, 12)
+    # ---- R6 id 0 on the dropped-flows channel means "multiplexor dropped": a stream handle must never carry it
+    rep.rule("C06.R6", "locally opened flows take their id from next_available_nonzero_key (= C07.R1): dropping a stream with id 0 would be "
+                       "read as 'multiplexor dropped' and tear down every other stream instead of resetting that one")
+    sub7 = type(rep)(rep.prop, rep.tier, rep.config)
+    rules_c07.check(facts, sub7, tier, cfg)
+    k6 = 0
+    for i in sub7.instances:
+        if i["rule"] == "C07.R1" and i["key"].endswith("/insert"):
+            k6 += 1
+            rep.ok("C06.R6", i["key"], i["where"], i["detail"])
+    for v in sub7.violations:
+        if v["rule"] == "C07.R1":
+            k6 += 1
+            rep.bad("C06.R6", v["key"].split("/", 1)[1], v["where"], v["msg"])
+    rep.floor("C06.R6", "local flow-id allocations", k6, 1)
